@@ -29,7 +29,7 @@ structure Valid (mc : MCfg) (c : Ctl) (apps : List App) : Prop where
   hb4 : 4 ∣ c.buf
   hbmax : c.buf ≤ 1024
   happ : c.appId < 256
-  hv : mc.vcpuBase < 4294967296
+  hv : ∀ x y, mc.vcpuBase x y < 4294967296
   himg : ∀ a ∈ apps, 4 ∣ a.image.length ∧ a.image.length ≤ 255 * c.buf
   hchips : mc.chips.Nodup
   hin : ∀ a ∈ apps, ∀ x y p, wants a x y p = true → (x, y) ∈ mc.chips ∧ p < 18
